@@ -14,6 +14,7 @@ import (
 	"fmt"
 
 	"verifharness/fw"
+	_ "verifharness/idfacts" // Gen/TaskIdFacts.lean: who writes a task's agentId / executorId, and under which nil tests
 	"verifharness/ownh"
 	"verifharness/rng"
 	"verifharness/sx"
@@ -117,6 +118,141 @@ func fixed() []fw.Case {
 	return cs
 }
 
+// sparseFixed: status updates whose OPTIONAL fields are absent. A task belongs to its environment until it is released,
+// whatever the master tells the core about it in between: after a status update about a task of a live environment —
+// TASK_RUNNING or a state updateTaskStatus has no case for, with or without executor_id / agent_id, labelled as a
+// reconciliation answer or as an ordinary update — the environment and its tasks are exactly as before (Spec frame clause:
+// the update is not a request on the environment), and the requests that follow FROM ELSEWHERE must not touch the task: the
+// pre-deployment Cleanup of another creation, CleanupTasks for everything, CleanupTasks naming the task, with
+// reuseUnlockedTasks another creation that wants a task of the same class on the same host. Then the owner still controls
+// and destroys it.
+func sparseFixed() []fw.Case {
+	var cs []fw.Case
+	add := func(b *ownh.B, tags ...string) {
+		cs = append(cs, fw.Case{Input: b.String(), Tags: append([]string{"sparse-status", "fixed-sparse-status"}, tags...)})
+	}
+	for _, om := range []string{"exec", "agent", "both", "none"} {
+		for _, src := range []string{"recon", "plain"} {
+			if om == "none" && src == "plain" {
+				continue
+			}
+			// CONFIGURED environment; then another creation (its pre-deployment Cleanup), a sweep, a kill request naming the task
+			b := &ownh.B{}
+			a := b.Env("ok", []int{1}, ownh.OKT(1, 1), ownh.OKT(2, 2))
+			c := b.Env("ok", []int{3}, ownh.OKT(11, 3))
+			b.Round(ownh.New(a)).Round(ownh.Upd(a, 0, "RUNNING", om, src)).Round(ownh.New(c)).
+				Round(ownh.Cleanup()).Round(ownh.KillEnv(a)).Round(ownh.Ctl(a, "START")).
+				Round(ownh.Upd(a, 1, "RUNNING", om, src), ownh.Cleanup()).Round(ownh.Ctl(a, "STOP")).
+				Round(ownh.Destroy(a, false, false, false)).Round(ownh.Cleanup())
+			add(b, "omit:"+om, "src:"+src, "then:create+cleanup+kill")
+		}
+	}
+	// a RUNNING environment: both of its tasks get a sparse update in one round with a sweep
+	{
+		b := &ownh.B{}
+		a := b.Env("ok", []int{1}, ownh.OKT(1, 1), ownh.OKT(2, 2))
+		c := b.Env("ok", []int{4}, ownh.OKT(11, 4), ownh.OKT(12, 1))
+		b.Round(ownh.New(a)).Round(ownh.Ctl(a, "START")).
+			Round(ownh.Upd(a, 0, "RUNNING", "exec", "recon"), ownh.Upd(a, 1, "RUNNING", "agent", "recon"), ownh.Cleanup()).
+			Round(ownh.New(c), ownh.KillEnv(a)).Round(ownh.Ctl(a, "STOP"), ownh.Ctl(c, "START")).
+			Round(ownh.Destroy(a, false, false, false), ownh.Cleanup())
+		add(b, "omit:exec", "omit:agent", "src:recon", "running-env")
+	}
+	// a state updateTaskStatus has no case for: nothing may be written at all
+	{
+		b := &ownh.B{}
+		a := b.Env("ok", []int{2}, ownh.OKT(1, 2))
+		c := b.Env("ok", []int{3}, ownh.OKT(11, 3))
+		b.Round(ownh.New(a)).Round(ownh.Upd(a, 0, "STARTING", "both", "recon")).Round(ownh.New(c)).Round(ownh.KillEnv(a), ownh.Cleanup()).
+			Round(ownh.Upd(a, 0, "STARTING", "exec", "plain")).Round(ownh.Cleanup()).Round(ownh.Destroy(a, true, false, false))
+		add(b, "omit:both", "state:STARTING")
+	}
+	// reuseUnlockedTasks: the owner's task in STANDBY (after RESET) gets a sparse update; another environment wanting the same
+	// class on the same host is created: it must launch a task of its own, not take the owned one over
+	for _, om := range []string{"exec", "both"} {
+		b := &ownh.B{Reuse: true}
+		a := b.Env("ok", []int{1}, ownh.OKT(1, 1))
+		c := b.Env("ok", []int{3}, ownh.OKT(1, 1))
+		b.Round(ownh.New(a)).Round(ownh.Ctl(a, "RESET")).Round(ownh.Upd(a, 0, "RUNNING", om, "recon")).Round(ownh.New(c)).
+			Round(ownh.Ctl(a, "CONFIGURE")).Round(ownh.Cleanup()).Round(ownh.Destroy(a, false, false, false), ownh.Destroy(c, false, false, false)).Round(ownh.Cleanup())
+		add(b, "omit:"+om, "src:recon", "reuse", "standby")
+	}
+	return cs
+}
+
+// sparseCase: 2-3 plain environments (no scripted failures: the scenario is about the update), the first one created and taken
+// to a random state, then 1-2 status updates about its tasks with random omissions, each followed by requests from elsewhere
+// (creation of another environment, CleanupTasks for all / naming the owner's tasks), finally the owner is controlled or destroyed.
+func sparseCase(r *rng.R) fw.Case {
+	b := &ownh.B{}
+	b.Reuse = r.P(1, 4)
+	nEnv := r.Range(2, 3)
+	nTasks := make([]int, nEnv)
+	for i := 0; i < nEnv; i++ {
+		n := r.Range(1, 2)
+		nTasks[i] = n
+		var roles []*sx.Node
+		for j := 0; j < n; j++ {
+			cls, host := ownh.Cls(i, j), r.Range(1, 4)
+			if b.Reuse {
+				cls, host = j+1, j+1
+			}
+			roles = append(roles, ownh.OKT(cls, host))
+		}
+		b.Env("ok", []int{i + 2}, roles...) // detectors ITS(h2), TPC(h3), TST(h4): no detector conflict
+	}
+	tags := []string{"sparse-status", "random"}
+	b.Round(ownh.New(0))
+	state := "CONFIGURED"
+	switch r.N(3) {
+	case 0:
+		b.Round(ownh.Ctl(0, "START"))
+		state = "RUNNING"
+	case 1:
+		b.Round(ownh.Ctl(0, "RESET"))
+		state = "STANDBY"
+	}
+	tags = append(tags, "owner:"+state)
+	next := 1
+	for i, n := 0, r.Range(1, 2); i < n; i++ {
+		om := rng.Pick(r, []string{"exec", "exec", "agent", "both", "none"})
+		src := rng.Pick(r, []string{"recon", "recon", "plain"})
+		st := "RUNNING"
+		if r.P(1, 6) {
+			st = "STARTING"
+		}
+		u := ownh.Upd(0, r.N(nTasks[0]), st, om, src)
+		tags = append(tags, "omit:"+om, "src:"+src)
+		if r.P(1, 3) {
+			b.Round(u, ownh.Cleanup())
+		} else {
+			b.Round(u)
+		}
+		switch {
+		case next < nEnv && r.P(2, 3):
+			b.Round(ownh.New(next))
+			next++
+		case r.P(1, 2):
+			b.Round(ownh.Cleanup())
+		default:
+			b.Round(ownh.KillEnv(0))
+		}
+	}
+	switch state {
+	case "CONFIGURED":
+		b.Round(ownh.Ctl(0, "START"))
+	case "RUNNING":
+		b.Round(ownh.Ctl(0, "STOP"))
+	default:
+		b.Round(ownh.Ctl(0, "CONFIGURE"))
+	}
+	b.Round(ownh.Destroy(0, r.P(1, 3), true, false)).Round(ownh.Cleanup())
+	if b.Reuse {
+		tags = append(tags, "reuse")
+	}
+	return fw.Case{Input: b.String(), Tags: tags}
+}
+
 func genCase(r *rng.R) fw.Case {
 	b := &ownh.B{}
 	reuse := r.P(1, 10)
@@ -206,6 +342,15 @@ func generate(tier string, r *rng.R) []fw.Case {
 	for i := 0; i < n; i++ {
 		cs = append(cs, genCase(r.Fork()))
 	}
+	// appended after the older cases, so those stay what they were for a given seed
+	cs = append(cs, sparseFixed()...)
+	ns := 10
+	if tier == "thorough" {
+		ns = 150
+	}
+	for i := 0; i < ns; i++ {
+		cs = append(cs, sparseCase(r.Fork()))
+	}
 	return cs
 }
 
@@ -225,6 +370,10 @@ func init() {
 			"then random scenarios: 2–4 environments with 1–3 tasks each on 4 shared hosts / 3 detectors, 3–7 rounds of 1–3 concurrently issued requests " +
 			"(create, START/STOP/RESET/CONFIGURE, destroy with random force/allowInRunningState/keepTasks, CleanupTasks for all or for one environment's tasks), " +
 			"12% of roles with a scripted launch/configure/transition failure, 8% of environments with DESTROY hooks, 10% of scenarios with reuseUnlockedTasks; " +
+			"SPARSE STATUS UPDATES (tag sparse-status): the simulated master sends the core a status update about a task of a live environment — TASK_RUNNING or TASK_STARTING, " +
+			"lacking the OPTIONAL fields executor_id / agent_id / both / none, labelled as a reconciliation answer or as an ordinary update — and then requests come from elsewhere: " +
+			"creation of another environment (pre-deployment Cleanup), CleanupTasks for all and naming the owner's tasks, with reuseUnlockedTasks a creation wanting the same class on the same host; " +
+			"finally the owner controls and destroys its tasks: 11 fixed scenarios + 10 (thorough 150) random ones; " +
 			"each scenario = one real core in its own process; non-trivial = >=2 environments, >=3 rounds, >=4 requests, >=2 creations; distinct by input text",
 		Shrink:  ownh.Shrink,
 		Workers: 6,
@@ -236,7 +385,8 @@ func init() {
 		Assumptions: []string{
 			"ownership of a task only goes none → E → none within a scenario, so a task that got a KILL call in a round and is still referenced by a live environment after the round was owned at the instant of the KILL",
 			"the simulated master answers KILL at once (fairness premise: the master eventually reports killed tasks)",
-			"executor/agent failure and reconciliation are not exercised here (C18)",
+			"executor/agent failure and re-subscription are not exercised here (C18, C06); reconciliation ANSWERS are, as status updates the simulated master volunteers (sim.InjectTaskStatus)",
+			"a status update is sent only about a task the core's roster holds and the master's table shows alive; the harness knows it was handled from the task event updateTaskStatus publishes last",
 			"a creation whose deployment times out with nothing scripted to fail (resourceOffers outcome dropped because the simulated master offers within microseconds of REVIVE) is counted inconclusive",
 		},
 	})
